@@ -33,9 +33,9 @@ theorem outcome_table (s : Script) :
     (authOK.status = .ok ∧ ∃ found status cp, (status = "ERR_CONNECT" ∨ status = "ERR_ADDRESS_INVALID" ∨ status = "ERR_ADDRESS_PRIVATE" ∨ status = "OK") ∧
         effs = [.search found, .auth authOK.id, .closed status cp 0 0 false, .closeClass "quick"]) ∨
     -- relayed: OK or ERR_RELAY_CLIENT, counters = bytes that crossed
-    (authOK.status = .ok ∧ ∃ found up reply status cls, (status = "OK" ∨ status = "ERR_RELAY_CLIENT") ∧
+    (authOK.status = .ok ∧ ∃ found up reply status cls sf, (status = "OK" ∨ status = "ERR_RELAY_CLIENT") ∧
         effs = [.search found, .auth authOK.id, .dial, .toTarget up true] ++ (if reply.isEmpty then [] else [.toClient reply]) ++
-               [.closed status s.raw up.length reply.length (!reply.isEmpty), .closeClass cls]) := by
+               [.closed status s.raw up.length reply.length (!reply.isEmpty), .closeClass cls, .serverFin sf]) := by
   intro effs authOK
   simp only [effs, authOK]
   unfold handle
@@ -60,7 +60,7 @@ theorem outcome_table (s : Script) :
         cases c.validate ip <;> simp [statusOfVerdict]
       | ok port =>
         right
-        refine ⟨trivial, _, _, _, _, _, ?_, rfl⟩
+        refine ⟨trivial, _, _, _, _, _, _, ?_, rfl⟩
         split <;> simp
 
 /-- **closed_exactly_once_and_last**: AddClosed is called exactly once per connection, after every other
@@ -68,7 +68,7 @@ theorem outcome_table (s : Script) :
 theorem closed_exactly_once (s : Script) :
     ((handle c st s valid srvSalt hash greeting).2.filter isClosed).length = 1 := by
   rcases outcome_table c st valid srvSalt hash greeting s with
-    ⟨_, f, cl, h⟩ | ⟨_, f, cl, h⟩ | ⟨_, f, stt, cp, _, h⟩ | ⟨_, f, up, reply, stt, cl, _, h⟩
+    ⟨_, f, cl, h⟩ | ⟨_, f, cl, h⟩ | ⟨_, f, stt, cp, _, h⟩ | ⟨_, f, up, reply, stt, cl, sf, _, h⟩
   all_goals (rw [h])
   · simp [List.filter, isClosed]
   · simp [List.filter, isClosed]
@@ -81,7 +81,7 @@ theorem authenticated_iff (s : Script) :
     ((handle c st s valid srvSalt hash greeting).2.filter isAuth).length =
       (if (authenticate st (some 1) (decide (s.raw ≥ c.bytesForKeyFinding)) valid srvSalt hash).2.status = .ok then 1 else 0) := by
   rcases outcome_table c st valid srvSalt hash greeting s with
-    ⟨hn, f, cl, h⟩ | ⟨ho, f, cl, h⟩ | ⟨ho, f, stt, cp, _, h⟩ | ⟨ho, f, up, reply, stt, cl, _, h⟩
+    ⟨hn, f, cl, h⟩ | ⟨ho, f, cl, h⟩ | ⟨ho, f, stt, cp, _, h⟩ | ⟨ho, f, up, reply, stt, cl, sf, _, h⟩
   all_goals (rw [h])
   · simp [List.filter, isAuth, hn]
   · simp [List.filter, isAuth, ho]
@@ -95,7 +95,7 @@ theorem probe_iff_auth_failed (s : Script) :
       (if (authenticate st (some 1) (decide (s.raw ≥ c.bytesForKeyFinding)) valid srvSalt hash).2.status = .ok then 0 else 1) ∧
     ∀ stt dr n, Eff.probe stt dr n ∈ (handle c st s valid srvSalt hash greeting).2 → n = s.raw := by
   rcases outcome_table c st valid srvSalt hash greeting s with
-    ⟨hn, f, cl, h⟩ | ⟨ho, f, cl, h⟩ | ⟨ho, f, stt, cp, _, h⟩ | ⟨ho, f, up, reply, stt, cl, _, h⟩
+    ⟨hn, f, cl, h⟩ | ⟨ho, f, cl, h⟩ | ⟨ho, f, stt, cp, _, h⟩ | ⟨ho, f, up, reply, stt, cl, sf, _, h⟩
   all_goals (rw [h])
   · refine ⟨by simp [List.filter, isProbe, hn], ?_⟩
     intro a b n hm; simp at hm; exact hm.2.2
@@ -114,7 +114,7 @@ theorem counters_exact_on_completion (s : Script) (status : String) (cp pt tp : 
     cp = s.raw ∧ pt = up.length ∧
     (tp = 0 ∧ pc = false ∨ ∃ reply, Eff.toClient reply ∈ (handle c st s valid srvSalt hash greeting).2 ∧ tp = reply.length ∧ pc = true) := by
   rcases outcome_table c st valid srvSalt hash greeting s with
-    ⟨_, f, cl, h⟩ | ⟨_, f, cl, h⟩ | ⟨_, f, stt, cp', _, h⟩ | ⟨_, f, up', reply, stt, cl, _, h⟩
+    ⟨_, f, cl, h⟩ | ⟨_, f, cl, h⟩ | ⟨_, f, stt, cp', _, h⟩ | ⟨_, f, up', reply, stt, cl, sf, _, h⟩
   all_goals (rw [h] at hc ht ⊢)
   · simp at ht
   · simp at ht
